@@ -115,7 +115,7 @@ CHECKS.update({
          'adds nothing else, carries the attributes, is a fixed point, is minimal, and is_minimal is true exactly when the graph equals its minimal '
          'graph; the boolean oracle c14_check is proved equivalent to the characterisation and is evaluated on the graph the IMPLEMENTATION returned, '
          'for random template sets with partial/complete instantiation; model and implementation outputs are compared exactly (also on the raising inputs).',
-    note=TB + 'adjacency_matrices clause: compared with the implementation, general proof not closed (adj_matrices_statement).',
+    note=TB + 'get_minimal_graph and is_minimal_graph are additionally TRANSLATED from time_series_causal_graph.py on every run (tools/translate_ts_extend.py -> TSGenMinimal.v) and proved equal to the hand-written model (gen_minimal_equiv, gen_is_minimal_equiv); the trusted part is the API table PyRtTSb.v; when the translator refuses the current source the run falls back to the hand-written model and its correspondence (DESIGN 3.5). adjacency_matrices clause: compared with the implementation, general proof not closed (adj_matrices_statement).',
     technique='Coq proofs of membership characterisation + oracle equivalence; correspondence on template graphs', design='§7 C14'),
  'C15': dict(
     text='Machine-checked proofs that the model of extend_graph returns exactly the kept template copies over the window (None / 0 / include_all_parents '
@@ -127,7 +127,7 @@ CHECKS.update({
     text='Machine-checked proofs that on consistent DAG inputs whose latest lag is 0 the model of get_stationary_graph contains the input, spans the window '
          'with every variable at every lag, contains every template copy that fits, has the input\'s minimal graph, and that is_stationary_graph is true '
          'exactly when the graph is a DAG equal to that graph and false on non-DAGs; c16_check and the iff are evaluated on the implementation outputs.',
-    note=TB + 'Not proved in general: stat_idem_statement (the result is itself stationary) and the oracle-to-Prop direction c16_check_statement; both are checked on every run by evaluation.',
+    note=TB + 'get_stationary_graph and is_stationary_graph are additionally TRANSLATED from the source on every run (tools/translate_ts_summary.py -> TSGenStationary.v) and proved equal to the model on every input (gen_stationary_equiv, gen_is_stationary_equiv); trusted API table PyRtTSa.v, in which the callee methods get_minimal_graph / extend_graph are rows; refusal falls back to the hand-written model and its correspondence (DESIGN 3.5). extend_graph is additionally TRANSLATED from the source on every run (TSGenExtend.v) and proved equal to the model on every input (gen_extend_equiv); trusted API table PyRtTSb.v; refusal falls back to the hand-written model and its correspondence (DESIGN 3.5). Not proved in general: stat_idem_statement (the result is itself stationary) and the oracle-to-Prop direction c16_check_statement; both are checked on every run by evaluation.',
     technique='Coq proofs + oracle evaluation on implementation outputs', design='§7 C16'),
  'C17': dict(
     text='Machine-checked proofs about the model of the (repaired) collapse loop: on every time-series DAG the call succeeds (only non-DAGs are refused), '
@@ -146,7 +146,7 @@ CHECKS.update({
          'sharing NESTED values, is refuted in Coq and recorded as finding F9. The table is RE-MEASURED on live Python objects by id() on every run and '
          'compared with the model\'s table, and the behavioural statement of the property is tested directly (export, mutate in every way the type allows, '
          'export again, mutate the graph, first vs later calls).',
-    note=TB + 'Partial by nature: the theorem is about the modelled allocation discipline; that deepcopy / dict.copy / numpy / networkx allocate as modelled is measured, not proved. One source graph; exports of derived graphs are not modelled.',
+    note=TB + 'get_summary_graph is additionally TRANSLATED from the source on every run (TSGenSummary.v) and proved equal to the model on every input (gen_summary_equiv); trusted API table PyRtTSa.v; refusal falls back to the hand-written model and its correspondence (DESIGN 3.5). Partial by nature: the theorem is about the modelled allocation discipline; that deepcopy / dict.copy / numpy / networkx allocate as modelled is measured, not proved. One source graph; exports of derived graphs are not modelled.',
     technique='Coq proof of separation invariant over a table-defined identity model; table re-measured by id() + behavioural mutation tests', design='§7 C06'),
 })
 
